@@ -88,7 +88,7 @@ def pred(arg, out):
     best_w = max(a[2] for a in answers if a[3] == best_pr)
     if (pr, w) != (best_pr, best_w):
         return f"picked priority {pr} weight {w}; best is priority {best_pr} weight {best_w}"
-    if not any(a[0].rstrip(".") == t and a[1] == p and a[2] == w and a[3] == pr for a in answers):
+    if not any(a[0].rstrip(".") == t and a[1] == p and a[2] == w and a[3] == pr for a in answers):  # exact, case included
         return "picked record is not one of the answers with its trailing dot removed"
     if t.endswith("."):
         return "trailing dot not removed"
@@ -110,7 +110,7 @@ def gen_cases(ctx: Ctx):
                 k += 1
                 answers = []
                 for i, (pr, w) in enumerate(perm):
-                    t = f"dc{i}.example.com" + ["", ".", ".."][(i + k) % 3]
+                    t = [f"dc{i}.example.com", f"DC{i}.Corp.Example.COM", f"dc{i}.EXAMPLE.com"][(i + k // 3) % 3] + ["", ".", ".."][(i + k) % 3]
                     answers.append([t, 389 + i, w, pr])
                 cases.append([k % 2, domains[k % 4], answers])
     # big values, negative weights are not valid SRV but exercise the key
